@@ -228,7 +228,14 @@ class Truth(dict):
     """data bytes -> the generator's reference list (ground truth of the oracle)"""
 
 
-def open_storage(kind, path):
+def open_storage(kind, path, cfg=None):
+    if kind == 'fs' and cfg:
+        # the storage as a deployment creates it: ZODB.config / ZConfig <filestorage> section with
+        # explicit pack-gc / pack-keep-old (pack is then called without a gc argument)
+        import ZODB.config
+        return ZODB.config.storageFromString(
+            '<filestorage>\n path %s\n pack-gc %s\n pack-keep-old %s\n</filestorage>\n'
+            % (path, 'true' if cfg['pack_gc'] else 'false', 'true' if cfg['keep_old'] else 'false'))
     if kind == 'fs':
         return Z['FS'](path)
     if kind == 'demofs':
@@ -358,6 +365,9 @@ def _do_pack(st, T, gc, via=None):
     DB.pack(t=T + days, days=days); ['dbnow', days]: DB.pack(days=days) with the clock at T + days —
     both must pack to T (gc is then the storage's default, True)."""
     try:
+        if via and via[0] == 'default':
+            st.pack(real_time(T), Z['referencesf'])        # gc: the storage's configured default
+            return 'done'
         if via:
             dbmod = sys.modules['ZODB.DB']
             days = via[1]
@@ -632,7 +642,7 @@ def run_case(case, tmp, want_model=True):
     os.makedirs(d)
     path = os.path.join(d, 'Data.fs')
     truth = Truth()
-    st = open_storage(kind, path)
+    st = open_storage(kind, path, case.get('cfg'))
     try:
         done, serial = apply_ops(st, kind, ops, truth)
         res['log'] = done
@@ -648,7 +658,7 @@ def run_case(case, tmp, want_model=True):
         if kind in FSLIKE:
             st.close()
             shutil.copy(path, path + '.orig')
-            st = open_storage(kind, path)
+            st = open_storage(kind, path, case.get('cfg'))
         maxT = None
         later_changed = False
         crossing = False
@@ -660,13 +670,29 @@ def run_case(case, tmp, want_model=True):
             if kind in FSLIKE and os.path.exists(path + '.old'):
                 os.remove(path + '.old')
             via = case.get('via') if (gc and kind != 'demofs') else None
+            cfg = case.get('cfg') if kind == 'fs' else None
+            if cfg:
+                if bool(gc) != bool(cfg['pack_gc']):
+                    raise InfraError('case with a configured storage must use its pack-gc in every step')
+                via = case.get('via') or ['default']
+                counts['cfg:pack-gc=%d,keep-old=%d' % (cfg['pack_gc'], cfg['keep_old'])] = \
+                    counts.get('cfg:pack-gc=%d,keep-old=%d' % (cfg['pack_gc'], cfg['keep_old']), 0) + 1
+            ino0 = os.stat(path).st_ino if kind in FSLIKE else None
             if via:
                 counts['via:%s' % via[0]] = counts.get('via:%s' % via[0], 0) + 1
             outcome = do_pack(st, T, gc, case.get('tz'), via)
             if case.get('tz'):
                 counts['tz:' + case['tz']] = counts.get('tz:' + case['tz'], 0) + 1
             if kind in FSLIKE and outcome == 'done':
-                outcome = 'ok' if os.path.exists(path + '.old') else 'none'
+                # the packed file replaces Data.fs (new inode); the old one is kept as Data.fs.old
+                # unless pack-keep-old is false
+                outcome = 'ok' if os.stat(path).st_ino != ino0 else 'none'
+                keep_old = cfg['keep_old'] if cfg else True
+                if os.path.exists(path + '.old') != (outcome == 'ok' and keep_old):
+                    res['bad'].append(('C07:pack-keep-old',
+                                       'pack(T=%d) on %s %s and pack-keep-old is %s, but Data.fs.old %s'
+                                       % (T, kind, 'rewrote the file' if outcome == 'ok' else 'changed nothing',
+                                          keep_old, 'exists' if os.path.exists(path + '.old') else 'is missing')))
             counts['pack:%s:%s' % (kind, outcome)] = counts.get('pack:%s:%s' % (kind, outcome), 0) + 1
             after = observe(st, oids, bounds)
             if maxT is not None and T <= maxT and all(g == gc for _, g in seq[:i + 1]):
@@ -709,7 +735,7 @@ def run_case(case, tmp, want_model=True):
             st.close()
             if case.get('drop_index') and os.path.exists(path + '.index'):
                 os.remove(path + '.index')
-            st = open_storage(kind, path)
+            st = open_storage(kind, path, case.get('cfg'))
             again = observe(st, oids, bounds)
             if (full_listing(again['listing']) != full_listing(before['listing'])
                     or again['loads'] != before['loads'] or again['cur'] != before['cur']
@@ -1175,8 +1201,15 @@ def main(argv=None):
                     y = ck.rng.random()
                     via = (['db', ck.rng.choice([1, 0.5, 30])] if y < 0.15 else
                            (['dbnow', ck.rng.choice([1, 2])] if y < 0.2 else None))
+                    cfg = None
+                    if kind == 'fs' and ck.rng.random() < 0.2:
+                        g = seq[0][1]
+                        cfg = dict(pack_gc=bool(g), keep_old=ck.rng.random() < 0.5)
+                        seq = [[t, g] for t, _ in seq]
+                        if not g:
+                            via = None
                     cases.append(dict(ops=ops, kind=kind, seq=seq, drop_index=ck.rng.random() < 0.5, tz=tz,
-                                      via=via))
+                                      via=via, cfg=cfg))
             if i % 5 == 1:
                 # FileStorage with blobs: a pack that fails at a packer phase, then a pack that succeeds
                 cases.append(gen_blob_case(ck.rng))
